@@ -48,7 +48,7 @@ func c16Invariants(R *vr.Result, id string, st *ovlStore, hist []string, expectV
 }
 
 func TestVerifC16(t *testing.T) {
-	R := vr.New("C16", "histories", "sequential operation histories through the agent interface (add, update, set-admin, remove, authenticate with local upgrades, failing operations; the generator never removes or demotes the last administrator) with the directory invariants checked after every completed operation (only <name>.user/.admin entries, one file per user, .tmp empty, Check passes); plus a concurrent phase racing logins of upgradeable users that carry 256 KiB of auxiliary data against set-admin on the same user. Non-trivial: every history; distinct by operation sequence")
+	R := vr.New("C16", "histories", "sequential operation histories through the agent interface (add, update, set-admin, remove, authenticate with local upgrades, failing operations; the generator never removes or demotes the last administrator) with the directory invariants checked after every completed operation (only <name>.user/.admin entries, one file per user, .tmp empty, Check passes); plus a concurrent phase racing logins of upgradeable users that carry 256 KiB of auxiliary data against set-admin on the same user, and rounds of overlapping add-as-user / add-as-administrator / set-admin / update requests for the same new names with the invariants checked at quiescence. Non-trivial: every history; distinct by operation sequence")
 	defer R.Write()
 	rng := R.Rand("c16h")
 	nh := vr.Pick(60, 1200)
@@ -63,6 +63,10 @@ func TestVerifC16(t *testing.T) {
 	if R.Want("race") {
 		R.Mark("race")
 		c16Race(R, rng)
+	}
+	if R.Want("concurrent") {
+		R.Mark("concurrent")
+		c16Concurrent(R, rng)
 	}
 }
 
@@ -139,6 +143,78 @@ func c16History(R *vr.Result, rng *rand.Rand, id string) {
 	R.Count("operations", len(hist))
 	if len(R.Samples) < 3 {
 		R.Sample(map[string]any{"history": id, "ops": hist})
+	}
+}
+
+// c16Concurrent: rounds of overlapping mutating requests on the same few names through the agent interface (as concurrent
+// HTTP clients produce them): add as user and add as administrator of the same new name, set-admin in both directions,
+// update and login of upgradeable records; the directory invariants are checked at quiescence after each round.
+func c16Concurrent(R *vr.Result, rng *rand.Rand) {
+	dir := ovlWork("c16conc")
+	sets := ref.CheapSets(rng, 2)
+	users := []ovlUser{{Name: "root", Pw: "rootpw", Admin: true, Set: 1}}
+	st := ovlMkStore(rng, dir, sets, 1, users)
+	ag, err := NewStore(st.Cfg, "local", "", "", "")
+	if err != nil {
+		R.Fatal = err.Error()
+		return
+	}
+	rounds := vr.Pick(60, 600)
+	for r := 0; r < rounds; r++ {
+		names := []string{fmt.Sprintf("n%d", r), fmt.Sprintf("m%d", r)}
+		type req struct {
+			desc string
+			f    func(s *Store) error
+		}
+		var reqs []req
+		for _, n := range names {
+			n := n
+			reqs = append(reqs, req{"add(" + n + ",user)", func(s *Store) error { return s.Add(n, "pw-u", false) }})
+			reqs = append(reqs, req{"add(" + n + ",admin)", func(s *Store) error { return s.Add(n, "pw-a", true) }})
+			if rng.Intn(2) == 0 {
+				adm := rng.Intn(2) == 0
+				reqs = append(reqs, req{fmt.Sprintf("setadmin(%s,%v)", n, adm), func(s *Store) error { return s.SetAdmin(n, adm) }})
+			}
+			if rng.Intn(2) == 0 {
+				reqs = append(reqs, req{"update(" + n + ")", func(s *Store) error { return s.Update(n, "pw-new") }})
+			}
+			if rng.Intn(3) == 0 {
+				reqs = append(reqs, req{"add(" + n + ",user) again", func(s *Store) error { return s.Add(n, "pw-u2", false) }})
+			}
+		}
+		rng.Shuffle(len(reqs), func(i, j int) { reqs[i], reqs[j] = reqs[j], reqs[i] })
+		errs := make([]error, len(reqs))
+		var wg sync.WaitGroup
+		gate := make(chan struct{})
+		for i, q := range reqs {
+			wg.Add(1)
+			iface := ag.GetInterface()
+			go func(i int, q req) {
+				defer wg.Done()
+				<-gate
+				errs[i] = q.f(iface)
+			}(i, q)
+		}
+		close(gate)
+		wg.Wait()
+		var hist []string
+		addOK := map[string]int{}
+		for i, q := range reqs {
+			hist = append(hist, fmt.Sprintf("%s=%v", q.desc, errs[i] == nil))
+			if strings.HasPrefix(q.desc, "add(") && errs[i] == nil {
+				addOK[q.desc[4:strings.Index(q.desc, ",")]]++
+			}
+		}
+		id := fmt.Sprintf("conc%d", r)
+		for n, k := range addOK {
+			if k > 1 {
+				R.Violate("c16:concurrent:two-adds-of-one-name-succeed", fmt.Sprintf("%d overlapping add requests for %s reported success", k, n), id, hist)
+			}
+		}
+		c16Invariants(R, id, st, hist, true)
+		R.Case("conc:"+strings.Join(hist, ";"), true)
+		R.Count("concurrent_rounds", 1)
+		R.Count("concurrent_requests", len(reqs))
 	}
 }
 
